@@ -297,6 +297,17 @@ fn non_success_kind_and_type(kind: UnitKind, result: ExecutionResult) -> (NonSuc
     }
 }
 
+/// XML 1.0 forbids the non-characters U+FFFE and U+FFFF, which `XmlString` does not remove: test
+/// output containing one of them would make the report unparseable.
+fn xml_safe(s: impl Into<XmlString>) -> XmlString {
+    let s = s.into();
+    if s.as_str().contains(['\u{fffe}', '\u{ffff}']) {
+        XmlString::new(s.as_str().replace(['\u{fffe}', '\u{ffff}'], ""))
+    } else {
+        s
+    }
+}
+
 enum TestcaseOrRerun<'a> {
     Testcase(&'a mut TestCase),
     Rerun(&'a mut TestRerun),
@@ -304,48 +315,52 @@ enum TestcaseOrRerun<'a> {
 
 impl TestcaseOrRerun<'_> {
     fn set_message(&mut self, message: impl Into<XmlString>) -> &mut Self {
+        let message = xml_safe(message);
         match self {
             TestcaseOrRerun::Testcase(testcase) => {
-                testcase.status.set_message(message.into());
+                testcase.status.set_message(message);
             }
             TestcaseOrRerun::Rerun(rerun) => {
-                rerun.set_message(message.into());
+                rerun.set_message(message);
             }
         }
         self
     }
 
     fn set_description(&mut self, description: impl Into<XmlString>) -> &mut Self {
+        let description = xml_safe(description);
         match self {
             TestcaseOrRerun::Testcase(testcase) => {
-                testcase.status.set_description(description.into());
+                testcase.status.set_description(description);
             }
             TestcaseOrRerun::Rerun(rerun) => {
-                rerun.set_description(description.into());
+                rerun.set_description(description);
             }
         }
         self
     }
 
     fn set_system_out(&mut self, system_out: impl Into<XmlString>) -> &mut Self {
+        let system_out = xml_safe(system_out);
         match self {
             TestcaseOrRerun::Testcase(testcase) => {
-                testcase.set_system_out(system_out.into());
+                testcase.set_system_out(system_out);
             }
             TestcaseOrRerun::Rerun(rerun) => {
-                rerun.set_system_out(system_out.into());
+                rerun.set_system_out(system_out);
             }
         }
         self
     }
 
     fn set_system_err(&mut self, system_err: impl Into<XmlString>) -> &mut Self {
+        let system_err = xml_safe(system_err);
         match self {
             TestcaseOrRerun::Testcase(testcase) => {
-                testcase.set_system_err(system_err.into());
+                testcase.set_system_err(system_err);
             }
             TestcaseOrRerun::Rerun(rerun) => {
-                rerun.set_system_err(system_err.into());
+                rerun.set_system_err(system_err);
             }
         }
         self
